@@ -1,5 +1,5 @@
 /-
-Subgraph / clique / Ramsey-witness formulas (unary mapping): the meaning of each block of
+Subgraph / clique formulas (unary mapping; the Ramsey witness is in `FamRamseyWitness.lean`): the meaning of each block of
 constraints on the table encoded by the assignment, well-formedness.
 -/
 import CnfgenModel.Fam.Subgraph
@@ -323,150 +323,6 @@ theorem subgraphEdges_iff {G H : SimpleG} (hG : GoodGraph G) {induced symbreak :
       rw [← pairwise_img_iff h.len] at hs'
       have := hs' i hi i' hii' hi'
       exact ⟨fun _ => hp i hi i' hii' hi', fun h' _ => by omega⟩
-
-/-! ### Ramsey witness -/
-
-theorem clause3_holds (α : Assign) (c : Int) {a b : Nat} (ha : 0 < a) (hb : 0 < b) :
-    Con.holds α (.clause [c, -((a : Nat) : Int), -((b : Nat) : Int)]) = true ↔
-      (litHolds α c = true ∨ ¬ (α a = true ∧ α b = true)) := by
-  simp only [Con.holds, clauseHolds, List.any_cons, List.any_nil, Bool.or_false, Bool.or_eq_true,
-    litHolds_neg_nat α ha, litHolds_neg_nat α hb]
-  cases litHolds α c <;> cases α a <;> cases α b <;> simp
-
-theorem litHolds_edgeLit (α : Assign) (e : Bool) :
-    litHolds α (if e = true then (1 : Int) else -1) = true ↔ α 1 = e := by
-  cases e <;> simp [litHolds]
-
-/-- the condition the Ramsey-witness clauses put on two pairs `i ↦ j`, `i' ↦ j'` with `i < i'`;
-`C` is the value of the variable "maybe clique" -/
-def RamP (G : SimpleG) (symbreak : Bool) (C : Bool) (j j' : Nat) : Prop :=
-  (j < j' → C = adj G j j') ∧ (j' < j → if symbreak then False else C = adj G j' j)
-
-theorem ramseyEdgeCons_holds (α : Assign) (G : SimpleG) (k : Nat) (symbreak : Bool) :
-    (∀ c ∈ ramseyEdgeCons G k symbreak, Con.holds α c = true) ↔
-      ∀ i, 1 ≤ i → ∀ i', i < i' → i' ≤ k → ∀ j, 1 ≤ j → j ≤ G.n → ∀ j', 1 ≤ j' → j' ≤ G.n →
-        α (mapId 2 G.n i j) = true → α (mapId 2 G.n i' j') = true → RamP G symbreak (α 1) j j' := by
-  have h2 : 1 ≤ 2 := by omega
-  simp only [ramseyEdgeCons, List.mem_flatMap, Prod.exists, mem_pairs2_verts, forall_exists_index, and_imp]
-  constructor
-  · intro h i hi i' hii' hi' j hj1 hj2 j' hj1' hj2' r r'
-    constructor
-    · intro hlt
-      have := h _ i i' hi hii' hi' j j' hj1 hlt hj2' List.mem_cons_self
-      unfold mlit at this
-      rw [clause3_holds α _ (mapId_pos h2) (mapId_pos h2), litHolds_edgeLit] at this
-      rcases this with e | e
-      · exact e
-      · exact absurd ⟨r, r'⟩ e
-    · intro hlt
-      cases symbreak
-      · have := h (Con.clause [if adj G j' j = true then 1 else -1, -mlit 2 G.n i j, -mlit 2 G.n i' j'])
-          i i' hi hii' hi' j' j hj1' hlt hj2 (by simp)
-        unfold mlit at this
-        rw [clause3_holds α _ (mapId_pos h2) (mapId_pos h2), litHolds_edgeLit] at this
-        rcases this with e | e
-        · simpa using e
-        · exact absurd ⟨r, r'⟩ e
-      · have := h (Con.clause [-mlit 2 G.n i j, -mlit 2 G.n i' j'])
-          i i' hi hii' hi' j' j hj1' hlt hj2 (by simp)
-        rw [clause_two_neg_mlit α h2] at this
-        exact absurd ⟨r, r'⟩ this
-  · intro h c i i' hi hii' hi' a b ha hab hb hc
-    simp only [List.mem_cons, List.not_mem_nil, or_false] at hc
-    rcases hc with rfl | rfl
-    · unfold mlit
-      rw [clause3_holds α _ (mapId_pos h2) (mapId_pos h2), litHolds_edgeLit]
-      by_cases hr : α (mapId 2 G.n i a) = true ∧ α (mapId 2 G.n i' b) = true
-      · exact Or.inl ((h i hi i' hii' hi' a ha (by omega) b (by omega) hb hr.1 hr.2).1 hab)
-      · exact Or.inr hr
-    · cases symbreak
-      · simp only [Bool.false_eq_true, if_false]
-        unfold mlit
-        rw [clause3_holds α _ (mapId_pos h2) (mapId_pos h2), litHolds_edgeLit]
-        by_cases hr : α (mapId 2 G.n i b) = true ∧ α (mapId 2 G.n i' a) = true
-        · have := (h i hi i' hii' hi' b (by omega) hb a ha (by omega) hr.1 hr.2).2 hab
-          exact Or.inl (by simpa using this)
-        · exact Or.inr hr
-      · simp only [if_true]
-        rw [clause_two_neg_mlit α h2]
-        rintro ⟨r, r'⟩
-        have := (h i hi i' hii' hi' b (by omega) hb a ha (by omega) r r').2 hab
-        simp at this
-
-theorem ramseyEdgeCons_in (G : SimpleG) (k : Nat) (symbreak : Bool) :
-    ConsIn 1 (2 + k * G.n - 1) (ramseyEdgeCons G k symbreak) := by
-  have h2 : 1 ≤ 2 := by omega
-  have c3 : ∀ (c : Int) (a b a' b' : Nat), (c = 1 ∨ c = -1) → 1 ≤ a → a ≤ k → 1 ≤ b → b ≤ G.n →
-      1 ≤ a' → a' ≤ k → 1 ≤ b' → b' ≤ G.n →
-      ∀ l ∈ (Con.clause [c, -(mlit 2 G.n a b), -(mlit 2 G.n a' b')]).lits,
-        l ≠ 0 ∧ 1 ≤ l.natAbs ∧ l.natAbs ≤ 2 + k * G.n - 1 := by
-    intro c a b a' b' hc ha1 ha hb1 hb ha1' ha' hb1' hb' l hl
-    simp only [Con.lits, List.mem_cons, List.not_mem_nil, or_false] at hl
-    have m1 := (mlit_in (st := 2) h2 ha1 ha hb1 hb).2
-    have m2 := (mlit_in (st := 2) h2 ha1' ha' hb1' hb').2
-    rcases hl with rfl | rfl | rfl
-    · rcases hc with rfl | rfl <;> omega
-    · omega
-    · omega
-  intro c hc
-  simp only [ramseyEdgeCons, List.mem_flatMap, Prod.exists, mem_pairs2_verts] at hc
-  obtain ⟨i, i', ⟨hi, hii', hi'⟩, a, b, ⟨ha, hab, hb⟩, hc⟩ := hc
-  have hc0 : (if adj G a b = true then (1 : Int) else -1) = 1 ∨ (if adj G a b = true then (1 : Int) else -1) = -1 := by
-    cases adj G a b <;> simp
-  simp only [List.mem_cons, List.not_mem_nil, or_false] at hc
-  rcases hc with rfl | rfl
-  · exact c3 _ i a i' b hc0 hi (by omega) ha (by omega) (by omega) hi' (by omega) hb
-  · cases symbreak
-    · simp only [Bool.false_eq_true, if_false]
-      exact c3 _ i b i' a hc0 hi (by omega) (by omega) hb (by omega) hi' ha (by omega)
-    · simp only [if_true]
-      intro l hl
-      have := clause_neg2_in (st := 2) (k := k) h2 hi (by omega) (by omega) hb (by omega) hi' ha (by omega) l hl
-      omega
-
-theorem ramseyWitnessCore_consIn (G : SimpleG) (k : Nat) (symbreak : Bool) :
-    ConsIn 1 (1 + k * G.n) (ramseyWitnessCore G k symbreak).cons := by
-  have e : 2 + k * G.n - 1 = 1 + k * G.n := by omega
-  have a := (prefix_in (st := 2) k G.n (by omega)).mono (lo' := 1) (hi' := 2 + k * G.n - 1) (by omega) (Nat.le_refl _)
-  have := a.append (ramseyEdgeCons_in G k symbreak)
-  rw [e] at this
-  exact this
-
-/-- on the table: the listed vertices are pairwise adjacent if `C` is true, pairwise non-adjacent if `C` is
-false; with symmetry breaking the list is increasing -/
-theorem ramseyEdges_iff {G : SimpleG} (hG : GoodGraph G) {k : Nat} {symbreak : Bool} {α : Assign} {l : List Nat}
-    (h : EncL 2 k G.n α l) (hnd : l.Nodup) :
-    (∀ c ∈ ramseyEdgeCons G k symbreak, Con.holds α c = true) ↔
-      Shape symbreak l ∧ l.Pairwise (fun a b => adj G a b = α 1) := by
-  rw [ramseyEdgeCons_holds, h.pairs_iff (fun _ _ j j' => RamP G symbreak (α 1) j j'), pairwise_img_iff h.len]
-  have hne := hnd
-  rw [List.nodup_iff_pairwise_ne] at hne
-  constructor
-  · intro hp
-    cases symbreak
-    · refine ⟨hnd, (hp.and hne).imp ?_⟩
-      rintro a b ⟨⟨p1, p2⟩, hab⟩
-      rcases Nat.lt_or_gt_of_ne hab with hlt | hgt
-      · exact (p1 hlt).symm
-      · rw [hG.symm]; exact (by simpa using p2 hgt : α 1 = adj G b a).symm
-    · have hs : l.Pairwise (· < ·) := by
-        refine (hp.and hne).imp ?_
-        rintro a b ⟨⟨_, p2⟩, hab⟩
-        rcases Nat.lt_or_gt_of_ne hab with hlt | hgt
-        · exact hlt
-        · exact absurd (p2 hgt) (by simp)
-      refine ⟨hs, (hp.and hs).imp ?_⟩
-      rintro a b ⟨⟨p1, _⟩, hlt⟩
-      exact (p1 hlt).symm
-  · rintro ⟨hs, hp⟩
-    cases symbreak
-    · refine hp.imp ?_
-      intro a b hab
-      exact ⟨fun _ => hab.symm, fun _ => by simp only [Bool.false_eq_true, if_false]; rw [hG.symm]; exact hab.symm⟩
-    · have hs' : l.Pairwise (· < ·) := hs
-      refine (hp.and hs').imp ?_
-      rintro a b ⟨hab, hlt⟩
-      exact ⟨fun _ => hab.symm, fun h' => by omega⟩
 
 end G2
 end Fam
